@@ -17,15 +17,17 @@ def main(seed, n):
             continue
         rng = common.rng_for(seed, "seed-workload", name)
         try:
-            bench = B.Bench(name, rng, size=12)
+            bench = B.Bench(name, rng, size=30)
         except Exception:  # noqa: BLE001
             continue
         if not bench.ok(8) or not bench.pool.hashable:
             continue
         for i in range(n):
-            m = bench.mapping(8, rng)
-            k = rng.randint(1, 6)
-            cons = [(rng.choice(B.CMPRS), r) for r in sorted(rng.sample(range(8), k))]
+            # short ranges, and a few long ones (anything that switches algorithm with the length)
+            width = min(bench.pool.n(), 28) if i % 5 == 4 else 8
+            m = bench.mapping(width, rng)
+            k = rng.randint(width - 6, width) if width > 8 else rng.randint(1, 6)
+            cons = [(rng.choice(B.CMPRS), r) for r in sorted(rng.sample(range(width), k))]
             objs = B.real_cons(bench, cons, m)
             try:
                 simp = VersionConstraint.simplify(list(objs))
